@@ -15,6 +15,9 @@ import re as _re
 _STR_CONST = _re.compile(r"^Ty\(&'\{erased\} str, \"(.*)\"\)$")
 
 
+
+RET_QUERIED = set()   # functions whose return value some rule has read in this run (see props/retmut.py)
+
 class Slicer:
     def __init__(self, body, max_depth=250):
         self.b = body
@@ -101,10 +104,26 @@ class Slicer:
             if t not in uniq:
                 uniq.append(t)
         if len(uniq) == 1:
-            return uniq[0]
-        if not uniq:
+            res = uniq[0]
+        elif not uniq:
             return ("uninit", l)
-        return ("phi", tuple(uniq))
+        else:
+            res = ("phi", tuple(uniq))
+        w = self._unconfirmed_writes().get(l)
+        if w:
+            # the local is modified in place by something the reference tree does not do (core/mutab.py):
+            # what it denotes is no longer what it was built as
+            return ("mutated", res, tuple(w))
+        return res
+
+    def _unconfirmed_writes(self):
+        if getattr(self, "_ucw", None) is None:
+            from . import mutab
+            try:
+                self._ucw = mutab.unconfirmed(self.b)
+            except Exception:
+                self._ucw = {}
+        return self._ucw
 
     def call_term(self, t, bb, depth=0, stack=()):
         nm, f = callee_name(t)
@@ -197,6 +216,7 @@ class Slicer:
 
     # convenience: term of the returned value at a return block
     def ret(self, bb):
+        RET_QUERIED.add(self.b.name)
         return self.local(0, bb, len(self.b.blocks[bb]["stmts"]))
 
     def call_args(self, bb):
